@@ -121,6 +121,8 @@ def _field(n, variant):
         centres[0] = np.array([centres[0][0], 15.5])
     field = Emulsion(drops).get_phasefield(grid)
     kw = [dict(), dict(modes=2), dict(interface_width=0.7), dict(modes=2, interface_width=1.0)][variant % 4]
+    if variant % 2 == 0:
+        kw = dict(kw, refine_args={"least_squares_params": {"max_nfev": 1000}})   # one options dict for all candidates
     return field, centres, kw
 
 
@@ -248,6 +250,20 @@ def run(out: core.Outcome) -> None:
                             continue
                         out.evaluations += 1
                         _judge(out, "refine", name, variant, sched, procs, res, serial, ev, n, w, none, expect_out, traces, trace_cases)
+                # ---------------- (A') the same field object, updated in place, analysed again in parallel
+                if w > 1 and not none:
+                    field.data[...] = np.roll(field.data, 3, axis=1)
+                    _CENTRES = [c + np.array([0.0, 3 * 0.5]) for c in centres]
+                    ser2, _ = _run_forced("refine", lambda: locate_droplets(field, refine=True, num_processes=1, **kw), None, 1, "s")
+                    try:
+                        par2, _ = _run_forced("refine", lambda: locate_droplets(field, refine=True, num_processes=w, **kw), None, w, "p")
+                        out.evaluations += 2
+                        if not _same(par2, ser2):
+                            out.violation({"scenario": "refine-after-inplace-update", "config": name, "variant": variant, "num_processes": w,
+                                           "fails": ["parallel result differs from the serial one after the field was modified in place"]})
+                    except Exception as exc:  # noqa: BLE001
+                        out.violation({"scenario": "refine-after-inplace-update", "config": name, "variant": variant,
+                                       "fails": [f"raised {type(exc).__name__}: {str(exc)[:100]}"]})
                 # ---------------- (B) frames of a storage
                 _CENTRES = None
                 storage = MemoryStorage()
@@ -263,7 +279,7 @@ def run(out: core.Outcome) -> None:
                     frames.append(Emulsion(ds).get_phasefield(fgrid))
                 storage.start_writing(frames[0])
                 for k, f in enumerate(frames):
-                    storage.append(f, 0.5 * k - 1)
+                    storage.append(f, (0.5 * k - 1) if variant % 2 == 0 else float(k // 2))   # odd variants: repeated time stamps
                 _FRAMEKEYS = {hashlib.md5(np.ascontiguousarray(f.data).tobytes()).hexdigest(): k + 1 for k, f in enumerate(storage)}
                 if len(_FRAMEKEYS) != n:
                     raise core.MachineryError("frames are not distinct")
